@@ -468,6 +468,19 @@ mutual
         | some (.update _ _) => .stuck "update method called as a conversion"
 end
 
+/-- a pointer source of an update method stands for the struct it points to: fields are selected through it and
+`goverter:map . X` reads `*source` -/
+def updSource (srcIsPtr : Bool) (src : Val) : Val :=
+  match srcIsPtr, src with
+  | true, .ptr _ x => x
+  | _, v => v
+
+/-- … while a `map . X | F` function taking the pointer receives the pointer itself (JenID.ParentPointer) -/
+def updParent (srcIsPtr : Bool) (src : Val) : Option Val :=
+  match srcIsPtr, src with
+  | true, .ptr l x => some (.ptr l x)
+  | _, _ => none
+
 /-- run an explicit method on its arguments in declared order (context and update-target arguments included) -/
 def runMethod (p : Program) (m : Nat) (argVals : List Val) (fuel : Nat := 400) : Outcome Val :=
   match p.methods[m]? with
@@ -480,12 +493,12 @@ def runMethod (p : Program) (m : Nat) (argVals : List Val) (fuel : Nat := 400) :
     | some (.update srcIsPtr c) =>
       let tgt := ((pairs.find? (fun (a, _) => a.use == .target)).map (·.2)).getD .nil
       let ctxTys := (gm.args.filter (fun a => a.use == .context)).map (·.ty)
-      let fr : Frame := { self := m, ctx := ctxTys.zip ctxVals, idx := [], keys := [], parent := none }
+      let fr : Frame := { self := m, ctx := ctxTys.zip ctxVals, idx := [], keys := [], parent := updParent srcIsPtr src }
       match tgt with
       | .ptr l tv =>
         if srcIsPtr && (match src with | .nil => true | _ => false) then .ok tgt
         else
-          match evalConv p fuel fr c src tv 0 with
+          match evalConv p fuel fr c (updSource srcIsPtr src) tv 0 with
           | .ok (nv, _) => .ok (.ptr l nv)
           | .err e => .err e
           | .panic k => .panic k
@@ -494,7 +507,7 @@ def runMethod (p : Program) (m : Nat) (argVals : List Val) (fuel : Nat := 400) :
         -- a nil target is only dereferenced when some field is actually assigned
         if srcIsPtr && (match src with | .nil => true | _ => false) then .ok .nil
         else
-          match evalConv p fuel fr c src .absent 0 with
+          match evalConv p fuel fr c (updSource srcIsPtr src) .absent 0 with
           | .ok (nv, _) => if nv.isAbsent then .ok .nil else .panic .nilDeref
           | .err e => .err e
           | .panic k => .panic k
